@@ -11,6 +11,7 @@
   (proved there for strings; containers are compared on every case).
 -/
 import SonicModel.Lemmas.DomValProof
+import SonicModel.Lemmas.DomPerm
 namespace Sonic.Thm.C19
 open Sonic Spec
 
@@ -18,6 +19,11 @@ theorem text_route_is_dom_route (v : Val) : v.render = v.toJ.render := render_to
 
 theorem equality_reflexive (a : DJ) : a.eq a = true := DJ.eq_refl a
 theorem equality_symmetric (a b : DJ) : a.eq b = b.eq a := DJ.eq_symm a b
+
+/-- equality is insensitive to the member order: objects holding the same members in any order
+    (no duplicated key) are equal -/
+theorem equality_ignores_member_order (ms ns : List (List UInt8 × DJ)) (hp : ms.Perm ns)
+    (hn : (ms.map Prod.fst).Nodup) : (DJ.obj ms).eq (DJ.obj ns) = true := obj_eq_of_perm ms ns hp hn
 
 /-- the comparison as originally written (keys of the left object only) on a duplicated key -/
 def oneWay (ms ns : List (List UInt8 × DJ)) : Bool := ms.length == ns.length && eqvKeys 3 ms ns ms
